@@ -155,6 +155,13 @@ func prepare(sp *spec) *scratch {
 			infra("prepare: %v", err)
 		}
 	}
+	// Type parameters instantiated with interface-holding key types (detmap over
+	// map[ID]...) need language version 1.20; nothing else changes between 1.18
+	// and 1.20 (loop variable semantics change only at 1.22).
+	if out, err := run(sc.repo, env, "go1.26.8", "mod", "edit", "-go=1.20"); err != nil {
+		sc.cleanup()
+		infra("go mod edit: %v\n%s", err, out)
+	}
 	if sp.Porcupine {
 		if out, err := run(sc.repo, env, "go1.26.8", "mod", "edit", "-require=github.com/anishathalye/porcupine@v1.3.0"); err != nil {
 			sc.cleanup()
